@@ -344,3 +344,43 @@ Definition p_holds (rq : req) (partial : bool) (pop_size : nat) (o : pobs) : boo
                         (if partial then arity_upper_ok rq t else arity_ok rq t)) pop
   | None => p_raised o
   end.
+
+(* ------------------------------------------------------------------ populations from a scripted graph stream *)
+(* A custom generation function may return any graph, also with several sinks.  LinkedGraph.__eq__
+   compares the SETS of the sinks' descriptive ids, so for equality a graph is the list of its
+   sinks unfolded into trees (a shared ancestor is unfolded once per path), and two graphs are
+   equal when every sink code of one occurs among the sink codes of the other.  The verifier is
+   an arbitrary predicate: its answer travels with the graph. *)
+Definition forest := list tree.
+Definition forest_eqb (a b : forest) : bool :=
+  let ca := map code a in let cb := map code b in
+  forallb (fun c => existsb (list_eqb c) cb) ca && forallb (fun c => existsb (list_eqb c) ca) cb.
+Definition forest_same (a b : forest) : bool := all2 tree_same a b.
+Definition sgraph := (bool * forest)%type.          (* (verifier(graph), sinks) *)
+
+Record sobs := mkSObs {
+  s_generated : list sgraph;       (* every graph the generation function returned, in order *)
+  s_result : list forest;          (* the returned population *)
+  s_accepted : list bool;          (* verifier(g) for every returned graph *)
+  s_equal_pairs : list bool        (* g_i == g_j (the implementation's ==) for all i < j returned *)
+}.
+
+Definition sgen_of (l : list sgraph) (i : nat) : res sgraph :=
+  match nth_error l i with Some g => Ok g | None => Raise ValueError end.
+Fixpoint fpairs_eq (l : list forest) : list bool :=
+  match l with [] => [] | x :: l' => map (fun y => forest_eqb x y) l' ++ fpairs_eq l' end.
+
+Definition s_agree (pop_size : nat) (o : sobs) : bool :=
+  match pop_loop sgraph (fun a b => forest_eqb (snd a) (snd b)) fst (sgen_of (s_generated o)) pop_size
+                 MAX_GRAPH_GEN_ATTEMPTS 0 [] with
+  | (Ok pop, n) =>
+      all2 forest_same (map snd pop) (s_result o) && (n =? length (s_generated o)) &&
+      bools_eqb (fpairs_eq (s_result o)) (s_equal_pairs o) && forallb (fun b => b) (s_accepted o)
+  | _ => false
+  end.
+
+(* the property on the observed population, with the implementation's own == answers *)
+Definition s_holds (pop_size : nat) (o : sobs) : bool :=
+  let n := length (s_result o) in
+  (n <=? pop_size) && (length (s_accepted o) =? n) && forallb (fun b => b) (s_accepted o) &&
+  (length (s_equal_pairs o) =? n * (n - 1) / 2) && forallb negb (s_equal_pairs o).
